@@ -43,3 +43,14 @@ def run(ck, prog):
     ck.extra["frozen_exceptions_used"] = used
     if used > 2:
         ck.violation("E4-scale", "frozen exceptions", "linalg::evd::hqr2", "", expected="at most the 2 counted overflow guards", found=f"{used} sites match the exception shape")
+
+
+# ------------------------------------------------------------------ generic: rows/cols (outer/inner) mix-up of locally allocated buffers
+_run_pre_dimension = run
+DIMENSION_FILES = ['src/linalg/evd.rs']
+
+
+def run(ck, prog):
+    _run_pre_dimension(ck, prog)
+    from sa import dimension
+    dimension.run_rule(ck, prog, set(DIMENSION_FILES))
